@@ -4,6 +4,7 @@ from .. import fam_numeric as fnum
 from .. import fam_pipeline as fp
 from .. import gen_models as gm
 from .. import pipeline as pl
+from ..fam_recipe import cdesc as fr_cdesc, tdesc as fr_tdesc
 
 THEOREMS = ["C06.weight_only_equiv", "C06.weight_only_outputs", "C06.weight_only_equiv_conv", "C03.xfs_wo", "C03.xfs_drq", "C02.quantize_skeleton", "C17.dq_q_rounded",
             # C06b: the analytic bound of the SPECIFIED hybrid (dynamic-range) kernel, for any rounding rule
@@ -34,7 +35,40 @@ def gen_tied(rng, i):
     return fp.Case(mb, info, cmds=cmds, data=data, desc=[(c["regex"], c["operation"], c["alg"], c["cfg"]["weight"]["bits"], c["cfg"]["weight"]["sym"]) for c in cmds])
 
 
+def equal_channel_filters(mb):
+    """every per-channel weight gets the SAME range in every channel (the same kernel replicated per channel: all per-channel scales and
+    zero points come out equal, a numeric corner for whoever stores or reads per-channel parameters)"""
+    import numpy as np
+    from tensorflow.lite.tools import flatbuffer_utils
+    m = pl.read(mb)
+    changed = False
+    for sg in m.subgraphs:
+        for op in sg.operators:
+            name = pl.BO_NAME.get(m.operatorCodes[op.opcodeIndex].builtinCode)
+            qd = {"DEPTHWISE_CONV_2D": 3, "CONV_2D": 0, "FULLY_CONNECTED": 0, "TRANSPOSE_CONV": 0}.get(name)
+            if qd is None or len(op.inputs) < 2 or op.inputs[1] == -1:
+                continue
+            t = sg.tensors[op.inputs[1]]
+            b = m.buffers[t.buffer]
+            if b.data is None or t.type != pl.TT.FLOAT32:
+                continue
+            w = np.frombuffer(bytes(np.asarray(b.data, dtype=np.uint8)), dtype="<f4").reshape([int(x) for x in t.shape]).copy()
+            first = np.take(w, [0], axis=qd)
+            w[...] = first
+            b.data = np.frombuffer(w.astype("<f4").tobytes(), dtype=np.uint8)
+            changed = True
+    return bytes(flatbuffer_utils.convert_object_to_bytearray(m)) if changed else mb
+
+
 def gen(rng, i):
+    if i % 11 == 5:
+        mb, info = gm.gen_model(rng, n_ops=rng.randint(1, 3), n_subgraphs=1, alias_sig=0.0, p_unsupported=0.0,
+                                kinds=["DEPTHWISE_CONV_2D", "DEPTHWISE_CONV_2D", "CONV_2D", "FULLY_CONNECTED", "TANH"])
+        mb = equal_channel_filters(mb)
+        info["tags"].add("equal_channel_ranges")
+        cfg = pl.UNIFORM[rng.choice(["drq8", "drq8", "wo8", "drq4c"])]   # per-channel weights
+        cmds = [{"k": "add", "regex": ".*", "operation": "*", "cfg": cfg, "alg": "min_max_uniform_quantize"}]
+        return fp.Case(mb, info, cmds=cmds, data=gm.random_inputs(mb, rng, n=1), desc=[("equal channel ranges", cfg["cp"], cfg["weight"]["bits"])])
     if i % 6 == 4:
         return gen_tied(rng, i)
     deep = {"n_ops": rng.randint(6, 12), "kinds": gm.WEIGHT_HEAVY} if i % 6 == 1 else {}   # many weight-bearing operators in a row
@@ -57,6 +91,18 @@ def gen(rng, i):
             else:
                 cmds.append({"k": "add", "regex": ".*", "operation": op, "cfg": pl.UNIFORM[rng.choice(["wo8", "wo8a", "wo4", "wo4a", "drq8", "drq4", "drq8t", "drq4c"])],
                              "alg": "min_max_uniform_quantize"})
+    if i % 7 == 3:
+        # "for all ACCEPTED recipes": rules the policy is meant to refuse (asymmetric weights under dynamic range, a leftover block_size on
+        # per-tensor / per-channel weights, 16-bit integer weights) are offered as well -- refused (at the update for a named operator, at
+        # resolution under '*') nothing happens; should one of them be accepted, the outputs must still follow the dequantized constants
+        odd = rng.choice([fr_cdesc(None, fr_tdesc(8, False, "CHANNELWISE", "INT", 0), "INTEGER", False),
+                          fr_cdesc(None, fr_tdesc(8, False, "TENSORWISE", "INT", 32), "INTEGER", False),
+                          fr_cdesc(None, fr_tdesc(8, True, "CHANNELWISE", "INT", 16), "INTEGER", False),
+                          fr_cdesc(None, fr_tdesc(4, False, "TENSORWISE", "INT", 32), "INTEGER", False),
+                          fr_cdesc(None, fr_tdesc(8, False, "CHANNELWISE", "INT", 32), "FLOAT", True)])
+        cmds = cmds + [{"k": "add", "regex": ".*", "operation": rng.choice(["*", "FULLY_CONNECTED", "CONV_2D", "BATCH_MATMUL"]), "cfg": odd,
+                        "alg": "min_max_uniform_quantize"}]
+        info["tags"].add("policy_refused_rule_offered")
     if i % 5 == 2:
         # the same object has quantized before under other rules for the same selectors (later rules override them)
         pre = [{**c, "cfg": pl.UNIFORM[rng.choice(["wo8", "wo4a", "drq8", "drq4"])], "alg": "min_max_uniform_quantize"} for c in cmds]
